@@ -19,6 +19,8 @@
 import TT.Model.CaptureConc
 import TT.Model.Forest
 import TT.Props.C05
+import TT.Lemmas.CapConcMain
+import TT.Lemmas.CapConcOrder
 
 namespace TT
 
@@ -163,6 +165,149 @@ def dropsShared (n : Nat) : List POp → Bool
 def wfThread (sites : List CallSite) (n : Nat) (ops : List POp) : Bool :=
   wfFrom sites (sharedWf n) ops && !dropsShared n ops
 
+/-! ### The definitions above coincide with their helper copies (`TT/Lemmas/CapConcDefs.lean`)
+
+The proofs live in `TT/Lemmas/CapConc*.lean`, which cannot import this file; they work with literal
+copies (`cc_…`) of the definitions above. -/
+
+def cc_toLog (s : CLogSt) : cc_CLogSt := ⟨s.next, s.calls⟩
+
+theorem cc_br_clogSub (g : Option Nat) (t : Nat) : cc_SubHom (clogSub g t) (cc_clogSub g t) cc_toLog :=
+  ⟨fun _ _ => rfl, fun _ _ _ => rfl, fun _ _ _ _ _ => rfl, fun _ _ _ => rfl, fun _ _ _ => rfl,
+   fun _ _ => rfl, fun _ _ => rfl, fun _ _ => rfl, fun _ _ => rfl, fun _ _ _ _ _ => rfl⟩
+
+def cc_toConc (s : CLogConc) : cc_CLogConc := ⟨cc_toLog s.st, s.shared, s.fes⟩
+
+theorem cc_br_setup (g : Option Nat) (sites : List CallSite) (n k : Nat) :
+    cc_toConc (CLogConc.setup g sites n k) = cc_CLogConc.setup g sites n k := by
+  unfold CLogConc.setup cc_CLogConc.setup
+  have := cc_feMap_run (cc_br_clogSub g mainTid) sites (List.replicate n (POp.new k .root []))
+    { sub := ({} : CLogSt) }
+  have h0 : cc_feMap cc_toLog { sub := ({} : CLogSt) } = { sub := ({} : cc_CLogSt) } := rfl
+  rw [h0] at this
+  simp only [this]
+  rfl
+
+theorem cc_br_step (g : Option Nat) (sites : List CallSite) (s : CLogConc) (t : Nat) (op : POp) :
+    cc_toConc (s.step g sites t op) = (cc_toConc s).step g sites t op := by
+  have := cc_feMap_step (cc_br_clogSub g t) sites
+    { sub := s.st, handles := ((s.fes.get t).getD (s.shared, [])).1,
+      registered := ((s.fes.get t).getD (s.shared, [])).2 } op
+  show _ = cc_CLogConc.mk
+    (feStep (cc_clogSub g t) sites (cc_feMap cc_toLog
+      { sub := s.st, handles := ((s.fes.get t).getD (s.shared, [])).1,
+        registered := ((s.fes.get t).getD (s.shared, [])).2 }) op).sub s.shared
+    (s.fes.insert t
+      ((feStep (cc_clogSub g t) sites (cc_feMap cc_toLog
+        { sub := s.st, handles := ((s.fes.get t).getD (s.shared, [])).1,
+          registered := ((s.fes.get t).getD (s.shared, [])).2 }) op).handles,
+       (feStep (cc_clogSub g t) sites (cc_feMap cc_toLog
+        { sub := s.st, handles := ((s.fes.get t).getD (s.shared, [])).1,
+          registered := ((s.fes.get t).getD (s.shared, [])).2 }) op).registered))
+  rw [this]
+  rfl
+
+theorem cc_br_schedule (g : Option Nat) (sites : List CallSite) (sched : List Nat) :
+    ∀ (s : CLogConc) (work : AMap Nat (List POp)),
+      cc_toConc (clogSchedule g sites s work sched) = cc_clogSchedule g sites (cc_toConc s) work sched := by
+  induction sched with
+  | nil => intro s work; rfl
+  | cons t sched ih =>
+    intro s work
+    cases hg : work.get t with
+    | none => simp only [clogSchedule, cc_clogSchedule, hg]; exact ih s work
+    | some ops =>
+      cases ops with
+      | nil => simp only [clogSchedule, cc_clogSchedule, hg]; exact ih s work
+      | cons op rest =>
+        simp only [clogSchedule, cc_clogSchedule, hg]
+        rw [ih, cc_br_step]
+
+theorem cc_br_concLog (g : Option Nat) (sites : List CallSite) (n k : Nat) (work : AMap Nat (List POp))
+    (sched : List Nat) : concLog g sites n k work sched = cc_concLog g sites n k work sched := by
+  unfold concLog cc_concLog
+  rw [← cc_br_setup, ← cc_br_schedule]
+  rfl
+
+def cc_toHC (h : HierStC) : cc_Hier := ⟨h.stacks, h.parent⟩
+
+theorem cc_br_resolve (h : HierStC) (t : Nat) (p : SParent) :
+    resolveSC h t p = cs_resolve (cc_proj (cc_toHC h) t) p := by
+  cases p <;> rfl
+
+theorem cc_br_hstep (h : HierStC) (c : Nat × SubCall) : cc_toHC (h.step c) = (cc_toHC h).step c := by
+  obtain ⟨t, c⟩ := c
+  cases c <;> first | rfl | (simp only [HierStC.step, cc_Hier.step, cc_toHC]; rfl)
+
+theorem cc_br_hierBefore (h : HierStC) (tcalls : List (Nat × SubCall)) :
+    (hierBeforeC h tcalls).map (fun x => (cc_proj (cc_toHC x.1) x.2.1, x.2.2)) = cc_hb (cc_toHC h) tcalls := by
+  induction tcalls generalizing h with
+  | nil => rfl
+  | cons c cs ih => simp [hierBeforeC, cc_hb, ih, cc_br_hstep]
+
+theorem cc_br_hierFinal_aux (h : HierStC) (tcalls : List (Nat × SubCall)) :
+    cc_toHC (tcalls.foldl HierStC.step h) = tcalls.foldl cc_Hier.step (cc_toHC h) := by
+  induction tcalls generalizing h with
+  | nil => rfl
+  | cons c cs ih => simp [ih, cc_br_hstep]
+
+theorem cc_br_hierFinal (tcalls : List (Nat × SubCall)) : cc_toHC (hierFinalC tcalls) = cc_hierFinal tcalls :=
+  cc_br_hierFinal_aux {} tcalls
+
+theorem cc_br_closed (calls) (h : HierStC) (m fuel id : Nat) :
+    closedAtEndC calls h m fuel id = cc_closedAtEnd calls (cc_toHC h) m fuel id := by
+  induction fuel generalizing id with
+  | zero => rfl
+  | succ n ih =>
+    simp only [closedAtEndC, cc_closedAtEnd, ih, cs_br_handles]
+    rfl
+
+theorem cc_br_refSpans (flt sites tcalls) :
+    (refSpansC flt sites tcalls).map cs_toSI = cc_refSpans flt sites tcalls := by
+  unfold refSpansC cc_refSpans
+  have hb : cc_hb {} tcalls = (hierBeforeC {} tcalls).map (fun x => (cc_proj (cc_toHC x.1) x.2.1, x.2.2)) :=
+    (cc_br_hierBefore {} tcalls).symm
+  rw [hb, List.filterMap_map, List.map_filterMap]
+  apply cs_filterMap_congr
+  rintro ⟨h, t, c⟩ _
+  cases c <;> simp [cs_siOf, cs_pc, cs_toSI, cs_br_nearest, cc_br_resolve, cc_toHC, cc_proj, cs_br_cap, cs_br_maxId,
+    untag, cc_untag]
+
+theorem cc_br_refEvents (flt sites tcalls) :
+    (refEventsC flt sites tcalls).map cs_toEI = cc_refEvents flt sites tcalls := by
+  unfold refEventsC cc_refEvents
+  have hb : cc_hb {} tcalls = (hierBeforeC {} tcalls).map (fun x => (cc_proj (cc_toHC x.1) x.2.1, x.2.2)) :=
+    (cc_br_hierBefore {} tcalls).symm
+  rw [hb, List.filterMap_map, List.map_filterMap]
+  apply cs_filterMap_congr
+  rintro ⟨h, t, c⟩ _
+  cases c <;> simp [cs_eiOf, cs_pc, cs_toEI, cs_br_nearest, cc_br_resolve, cc_toHC, cc_proj, cs_br_cap, cs_br_maxId,
+    untag, cc_untag]
+
+theorem cc_br_expected (flt sites tcalls) : expectedStorageC flt sites tcalls = cc_expected flt sites tcalls := by
+  unfold cc_expected cs_mk
+  rw [← cc_br_refSpans, ← cc_br_refEvents, cs_mkStorage_map]
+  unfold expectedStorageC cs_mkStorage cs_fns
+  simp only [cs_mkSpan, cs_idxWhere, Function.comp, cs_toSI, cs_toEI]
+  congr 1
+  apply List.map_congr_left
+  rintro ⟨s, i⟩ _
+  simp only [cs_br_values, cs_br_maxId, cs_br_cap]
+  congr 1
+  rw [cc_br_closed, cc_br_hierFinal]
+  rfl
+
+theorem cc_br_dropsShared (n : Nat) (ops : List POp) : dropsShared n ops = cc_dropsShared n ops := by
+  induction ops with
+  | nil => rfl
+  | cons op ops ih => cases op <;> simp [dropsShared, cc_dropsShared, ih]
+
+theorem cc_br_wfThread (sites : List CallSite) (n : Nat) (ops : List POp) :
+    wfThread sites n ops = cc_wfThread sites n ops := by
+  unfold wfThread cc_wfThread
+  rw [cc_br_dropsShared]
+  rfl
+
 /-- Under every schedule of any number of threads: no callback panics, every storage satisfies
     the structural laws of C17, and every layer's storage is exactly the reference for the
     interleaved call log. -/
@@ -174,7 +319,18 @@ theorem C19_all_schedules (filters : List LFilter) (global : Option Nat) (sites 
     s.w.panicked = false ∧ (∀ st ∈ s.w.storages, st.WF) ∧ s.w.storages.length = filters.length ∧
     ∀ i, i < filters.length →
       s.w.storages.getD i {} = expectedStorageC (filters.getD i .all) sites (concLog global sites n k work sched) := by
-  sorry
+  intro s
+  -- distinct keys and `≠ mainTid` are not needed: the proof goes through `AMap.get`
+  have _ := hkeys
+  have _ := hmain
+  have h := cc_main filters global sites n k hk work sched (by
+    intro t ops hg
+    rw [← cc_br_wfThread]
+    exact hwf (t, ops) (cs_get_mem hg))
+  refine ⟨h.1, h.2.1, h.2.2.1, ?_⟩
+  intro i hi
+  rw [cc_br_expected, cc_br_concLog]
+  exact h.2.2.2 i hi
 
 /-- The log restricted to one thread is that thread's own sequence of calls: its items appear in
     its emission order, whatever the schedule (ids are global, so calls are compared with span ids
@@ -190,13 +346,21 @@ def eraseIds : SubCall → SubCall
   | .event k _ f => .event k .ctx f
   | c => c
 
+theorem cc_br_eraseIds (c : SubCall) : eraseIds c = cc_eraseIds c := by
+  cases c <;> rfl
+
 theorem C19_thread_order (global : Option Nat) (sites : List CallSite) (n k : Nat)
     (work : AMap Nat (List POp)) (sched : List Nat) (t : Nat) (ops : List POp)
     (hkeys : (work.map (·.1)).Nodup) (ht : work.get t = some ops) (htm : t ≠ mainTid)
     (hall : ops.length ≤ (sched.filter (· == t)).length) :
     ((concLog global sites n k work sched).filter (·.1 == t)).map (fun c => eraseIds c.2)
       = ((concLog global sites n k [(t, ops)] (List.replicate ops.length t)).filter (·.1 == t)).map (fun c => eraseIds c.2) := by
-  sorry
+  have _ := hkeys
+  have _ := htm
+  have he : (fun c : Nat × SubCall => eraseIds c.2) = fun c => cc_eraseIds c.2 := by
+    funext c; exact cc_br_eraseIds c.2
+  rw [cc_br_concLog, cc_br_concLog, he]
+  exact cc_thread_order global sites n k work sched t ops ht hall
 
 /-- Non-vacuity: two threads, a shared span used as explicit parent by one and entered by the
     other, interleaved; thread 1's contextual span is a root although thread 2 has a span entered. -/
